@@ -123,3 +123,14 @@ func (s *Service) VerifCompact(name string, partID uint64, kind partitions.Kind,
 	}
 	return -1
 }
+
+// VerifDoCompaction runs the compaction worker's own routine for one partition
+// (primary and backup fragments of every DMap) to completion.
+func (s *Service) VerifDoCompaction(partID uint64) {
+	s.doCompaction(partID)
+}
+
+// VerifTableStats describes the storage of one fragment.
+type VerifTableStats struct {
+	Allocated, Inuse, Garbage, Length, NumTables int
+}
